@@ -786,14 +786,14 @@ func (c *FnCtx) execLookup(fr *Frame, st *State, i *ssa.Lookup) {
 
 // range over a map: a ghost, duplicate-free enumeration of the keys present when the loop starts.
 type rangeState struct {
-	mapT  *types.Map
-	m     string
-	keys  string // (Array Int K): enumeration
-	idx   string // (Array K Int): position of each present key
-	n     string // number of keys
-	pos   string // local key holding the position
-	has0  string
-	val0  string
+	mapT *types.Map
+	m    string
+	keys string // (Array Int K): enumeration
+	idx  string // (Array K Int): position of each present key
+	n    string // number of keys
+	pos  string // local key holding the position
+	has0 string
+	val0 string
 }
 
 func (c *FnCtx) execRange(fr *Frame, st *State, i *ssa.Range) {
